@@ -120,6 +120,7 @@ enum
     CL_MIXED_SIZES,
     CL_OPEN_REFUSED,
     CL_ABORT_WHILE_OTHER_IN_STOP,
+    CL_REAL_CAMERA,
 };
 
 const VhSpec kSpec = {
@@ -133,7 +134,7 @@ const VhSpec kSpec = {
       "monitor_first_used_in_later_acquisition", "client_holds_region", "abort", "abort_while_worker_blocked", "abort_while_client_mapped",
       "abort_from_other_thread", "trigger_mode", "averaging", "averaging_2_windows", "fault_camera_frame", "fault_storage_append", "fault_start",
       "fault_fired", "fault_while_source_blocked", "shutdown_reinit", "start_while_running", "device_switch", "stream_toggled", "camera_no_frame_returns",
-      "hardware_id_gaps", "pct_schedule", "preemptions", "step_limit_inconclusive", "configure_while_running", "poll_then_continue_without_stop", "edge_preemptions", "frame_sizes_vary_within_acquisition", "device_open_refused_during_configure", "abort_from_other_thread_while_first_is_inside_stop", nullptr },
+      "hardware_id_gaps", "pct_schedule", "preemptions", "step_limit_inconclusive", "configure_while_running", "poll_then_continue_without_stop", "edge_preemptions", "frame_sizes_vary_within_acquisition", "device_open_refused_during_configure", "abort_from_other_thread_while_first_is_inside_stop", "shipped_simulated_camera", nullptr },
     { "C04 non-trivial: a finite acquisition completed with >=3 wraps of the sink ring AND (sink caught up at a wrap, or source blocked on a full ring, or a monitor lagging >= 1 frame, or write delay > 0)",
       "C05 non-trivial: image bytes % 8 != 0 AND a packet starting right after a wrap or after a partial client consume",
       "C06 non-trivial: >=2 acquisitions AND the monitor registered AND (partial consume, or hold while the ring filled, or first registration in a later acquisition)",
@@ -304,7 +305,7 @@ walk_packet(Ctx& x, const char* who, int stream, const uint8_t* beg, size_t n, b
             int cam = (int)(f->timestamps.hardware >> 56) - 1;
             int run = (int)((f->timestamps.hardware >> 32) & 0xffffff);
             uint64_t k = f->timestamps.hardware & 0xffffffffu;
-            vmock::Instance* ci = cam >= 0 && cam < 2 ? vmock::last_camera(cam) : nullptr;
+            vmock::Instance* ci = cam >= 0 && cam < 4 ? vmock::last_camera(cam) : nullptr;
             const vmock::Delivered* d = nullptr;
             // the camera instance that delivered this frame (instances of one index share run numbering)
             for (vmock::Instance* i : vmock::hub.instances)
@@ -438,8 +439,9 @@ check_storage_vs_camera(Ctx& x, AcqRec& a, const char* prop, bool expect_complet
             return;
         }
         size_t img = (size_t)d.shape.strides.planes * vmock::bpp(d.shape.type);
+        vmock::Expected ex = vmock::expected_pixels(a.cam->idx, a.cam_run, d.k);
         for (size_t j = 0; j < img; ++j)
-            if (f->data[j] != vmock::prf(vmock::hub.salt, a.cam->idx, a.cam_run, d.k, j)) {
+            if (f->data[j] != ex.at(j)) {
                 x.c.fail_soft(prop, "pixels", "altered", "stream %d: storage frame #%zu pixel byte %zu differs from what the camera delivered", a.stream, i, j);
                 return;
             }
@@ -548,6 +550,12 @@ check_averaging(Ctx& x, AcqRec& a, bool complete)
 // ---- client operations (run in the client fiber) -----------------------------------------------------
 
 bool
+uses_real_camera(const StreamCfg cfg[2])
+{
+    return (cfg[0].enabled && cfg[0].cam >= 2) || (cfg[1].enabled && cfg[1].cam >= 2);
+}
+
+bool
 workers_alive(Ctx& x)
 {
     for (int f = 0; f < vsim::nfibers(); ++f)
@@ -590,10 +598,26 @@ void
 do_configure(Ctx& x, const StreamCfg cfg_in[2])
 {
     StreamCfg cfg[2] = { cfg_in[0], cfg_in[1] };
+    for (int s = 0; s < 2; ++s) {
+        StreamCfg& c = cfg[s];
+        if (c.cam >= 2) {
+            // the shipped simulated cameras: no scripted pacing features; the exposure is the period; the
+            // averaging oracle needs the PRF cameras
+            if (c.avg >= 2)
+                c.cam &= 1;
+            else {
+                c.noframe_every = c.gap_every = c.vary = 0;
+                if (c.period_us < 200)
+                    c.period_us = 200;
+            }
+        }
+    }
     // two streams never share a device
     if (cfg[0].enabled && cfg[1].enabled) {
         if (cfg[1].cam == cfg[0].cam)
-            cfg[1].cam = 1 - cfg[0].cam;
+            cfg[1].cam = cfg[0].cam ^ 1;
+        if (cfg[1].cam >= 2 && cfg[1].avg >= 2)
+            cfg[1].cam &= 1; // (cfg[0] then uses a real camera: no clash)
         if (cfg[1].store == cfg[0].store)
             cfg[1].store = 1 - cfg[0].store;
     }
@@ -613,7 +637,7 @@ do_configure(Ctx& x, const StreamCfg cfg_in[2])
             continue;
         }
         char name[16];
-        snprintf(name, sizeof name, "vcam%d", c.cam);
+        snprintf(name, sizeof name, c.cam < 2 ? "vcam%d" : "vreal%d", c.cam & 1);
         device_manager_select(x.dm, DeviceKind_Camera, name, strlen(name), &v.camera.identifier);
         snprintf(name, sizeof name, "vstore%d", c.store);
         device_manager_select(x.dm, DeviceKind_Storage, name, strlen(name), &v.storage.identifier);
@@ -637,7 +661,7 @@ do_configure(Ctx& x, const StreamCfg cfg_in[2])
         x.c.cls(CL_CONFIG_WHILE_RUNNING);
     for (int s = 0; s < 2; ++s)
         if (cfg[s].enabled && cfg[s].open_fault && !x.running)
-            vmock::hub.refuse_open[cfg[s].open_fault == 1 ? cfg[s].cam : 2 + cfg[s].store] = true;
+            vmock::hub.refuse_open[cfg[s].open_fault == 1 ? (cfg[s].cam < 2 ? cfg[s].cam : 2 + cfg[s].cam) : 2 + cfg[s].store] = true;
     int refused_before = vmock::hub.opens_refused;
     AcquireStatusCode r = acquire_configure(x.rt, &props);
     for (bool& b : vmock::hub.refuse_open)
@@ -730,6 +754,8 @@ do_start(Ctx& x)
                 x.c.cls(CL_HWGAP);
             if (a.cfg.vary && !a.cfg.avg && a.cfg.w > 1)
                 x.c.cls(CL_MIXED_SIZES);
+            if (a.cfg.cam >= 2)
+                x.c.cls(CL_REAL_CAMERA);
             if (a.cfg.fault_site) {
                 x.any_fault_in_case = true;
                 x.c.cls(a.cfg.fault_site == 1 ? CL_FAULT_CAMERA : a.cfg.fault_site == 2 ? CL_FAULT_STORAGE : CL_FAULT_START);
@@ -957,8 +983,9 @@ do_map(Ctx& x, int s)
             }
             size_t img = (size_t)f->shape.strides.planes * vmock::bpp(f->shape.type);
             uint64_t k = f->timestamps.hardware & 0xffffffffu;
+            vmock::Expected ex = vmock::expected_pixels(fc, fr, k);
             for (size_t j = 0; j < img; ++j)
-                if (f->data[j] != vmock::prf(vmock::hub.salt, fc, fr, k, j)) {
+                if (f->data[j] != ex.at(j)) {
                     x.c.fail("C06", "monitor-pixels", "altered", "stream %d: monitor frame id %llu pixel byte %zu differs from what the camera delivered", s,
                                   (unsigned long long)f->frame_id, j);
                     return;
@@ -1393,7 +1420,10 @@ client_main(void*)
             case K_CONFIGURE:
                 if (!x.running)
                     do_configure(x, op.cfg);
-                else if ((op.t.a & 1) && (!vh_focus || !*vh_focus || !strcmp(vh_focus, "C08")) && !x.disrupted && x.other_done && !x.aborted_current) {
+                else if ((op.t.a & 1) && (!vh_focus || !*vh_focus || !strcmp(vh_focus, "C08")) && !x.disrupted && x.other_done && !x.aborted_current &&
+                         !uses_real_camera(x.applied) && !uses_real_camera(op.cfg)) {
+                    // (not with the shipped simulated cameras: there the known findings are heap corruption
+                    // in the camera, which ends the process instead of being tolerated by signature)
                     // tier B ("in any order"): configure while an acquisition is running.  Only in runs
                     // made for C08; every life-cycle breach observed from here on carries the context
                     // "@configure-while-running" in its signature (see known_findings.txt).
@@ -1588,7 +1618,7 @@ vh_run(const VhTok* tape, size_t n, VhReport* rep)
         switch (kind) {
             case K_STREAM:
                 cur[s].enabled = (t.a >> 1) & 1 ? true : (s == 1 ? false : true);
-                cur[s].cam = (t.a >> 2) & 1;
+                cur[s].cam = ((t.a >> 2) & 1) | (((t.a >> 6) & 3) == 3 ? 2 : 0); // a quarter: the shipped simulated cameras
                 cur[s].store = (t.a >> 3) & 1;
                 if (s == 1 && ((t.a >> 4) & 1))
                     cur[1].enabled = true;
@@ -1677,7 +1707,7 @@ vh_run(const VhTok* tape, size_t n, VhReport* rep)
                     c.w = 1 + (h >> 4) % 9;
                     c.h = 1 + (h >> 9) % 7;
                     c.nframes = 3 + (h >> 14) % 30;
-                    c.cam = (h >> 20) & 1;
+                    c.cam = ((h >> 20) & 1) | ((h >> 56) % 4 == 0 ? 2 : 0); // a quarter: the shipped simulated cameras
                     c.store = (h >> 21) & 1;
                     c.fault_site = 0;
                     c.trigger = false;
@@ -1712,7 +1742,7 @@ vh_run(const VhTok* tape, size_t n, VhReport* rep)
                             StreamCfg& d = c2[1];
                             d = c;
                             d.enabled = true;
-                            d.cam = 1 - c.cam;
+                            d.cam = c.cam ^ 1;
                             d.store = 1 - c.store;
                             d.type = types[(h >> 40) % 8];
                             d.w = 1 + (h >> 43) % 9;
